@@ -22,7 +22,7 @@ func TestC08Binary(t *testing.T) {
 	rec.Rule("binary level: `vipnode pool --store=memory` is started with a generated --max-request-hosts (absent, 0, 1, 2, 3, 5); 1-4 geth hosts register over WebSocket and acknowledge every whitelist call, one of them may end its connection; a fresh light client asks over HTTP with vipnode_peer{num in {-1,0,1,2,3,6}} or the legacy vipnode_client{num_hosts}; oracle: every returned node is a distinct connected host that acknowledged a whitelist call for the requester before the reply, the reply holds exactly min(effective request, configured maximum, connected hosts) hosts (effective request: num, or 3 for a legacy request without a count; none for num <= 0), an error only when that is 0 although hosts were asked for; non-trivial = the configured maximum or the supply cuts the request; distinct by (max, hosts, request)")
 	rec.Assume("binary level is real time: a closed host connection is given up to 10 s to be noticed by the pool before the request is sent")
 	idBase := 0
-	rapid.Check(t, func(rt *rapid.T) {
+	check(t, func(rt *rapid.T) {
 		maxSpec := rapid.SampledFrom([]int{-1, 0, 1, 2, 3, 5}).Draw(rt, "max")
 		var args []string
 		max := 0
